@@ -36,6 +36,7 @@ func main() {
 	noMut := flag.Bool("no-mutants", false, "thorough tier: skip the mutant kill matrix")
 	replay := flag.String("replay", "", "print a violations report")
 	list := flag.Bool("list", false, "list properties")
+	meta := flag.Bool("meta", false, "self-test: apply behaviour-preserving rewrites (defer / captured parameters) to every function of the property's packages and compare the check's result with the plain tree")
 	flag.Parse()
 
 	if *replay != "" {
@@ -57,6 +58,15 @@ func main() {
 		}
 		sort.Strings(ids)
 		fmt.Println(strings.Join(ids, " "))
+		return
+	}
+	if *meta {
+		if registry[*prop] == nil {
+			fmt.Println("unknown property")
+			os.Exit(2)
+		}
+		n := runMeta(*prop)
+		fmt.Printf("meta self-test %s: %d differences\n", *prop, n)
 		return
 	}
 	spec := registry[*prop]
@@ -83,7 +93,7 @@ func flagSet(name string) bool {
 func runProp(spec *PropSpec, tier, mutant string, noMut bool) (code int) {
 	start := time.Now()
 	c := &Ctx{Prop: spec.ID, Tier: tier, Rules: map[string]*RuleStat{}, FuncsSeen: map[string]bool{}, Extra: map[string]interface{}{}}
-	c.Explanation = spec.Explanation + round8Explanations[spec.ID] + round9Explanations[spec.ID] + round10Explanations[spec.ID] + round11bExplanations[spec.ID] + round12Explanations[spec.ID] + round13Explanations[spec.ID] + round14Explanations[spec.ID] + round15Explanations[spec.ID] + round16Explanations[spec.ID] + round17Explanations[spec.ID] + genericExplanation
+	c.Explanation = spec.Explanation + round8Explanations[spec.ID] + round9Explanations[spec.ID] + round10Explanations[spec.ID] + round11bExplanations[spec.ID] + round12Explanations[spec.ID] + round13Explanations[spec.ID] + round14Explanations[spec.ID] + round15Explanations[spec.ID] + round16Explanations[spec.ID] + round17Explanations[spec.ID] + round18Explanations[spec.ID] + genericExplanation
 	var runErr error
 	var mut *MutantSummary
 	defer func() {
@@ -97,6 +107,9 @@ func runProp(spec *PropSpec, tier, mutant string, noMut bool) (code int) {
 			for _, o := range c.Obls {
 				if !o.OK && !known[o.Key] {
 					keys = append(keys, o.Key) // recorded findings are not news on a mutant either
+					if os.Getenv("VERIF_MUTANT_VERBOSE") != "" {
+						fmt.Printf("MUTANT-DETAIL %s @ %s: %s\n", o.Key, o.Pos, o.Detail)
+					}
 				}
 			}
 			if runErr != nil {
@@ -104,6 +117,12 @@ func runProp(spec *PropSpec, tier, mutant string, noMut bool) (code int) {
 			}
 			b, _ := json.Marshal(keys)
 			fmt.Printf("MUTANT-RESULT %s\n", b)
+			rules := map[string]int{}
+			for k, rs := range c.Rules {
+				rules[k] = rs.Instances
+			}
+			rb, _ := json.Marshal(rules)
+			fmt.Printf("MUTANT-RULES %s\n", rb)
 			code = 0
 			return
 		}
@@ -120,7 +139,14 @@ func runProp(spec *PropSpec, tier, mutant string, noMut bool) (code int) {
 			ls = LoadSpec{Patterns: wholePatterns, Whole: true}
 			c.Whole = true
 		}
-		if mutant != "" {
+		if strings.HasPrefix(mutant, "META:") {
+			ov, err := metaOverlay(spec, mutant)
+			if err != nil {
+				runErr = err
+				return
+			}
+			ls.Overlay = ov
+		} else if mutant != "" {
 			ov, err := mutantOverlay(spec.ID, mutant)
 			if err != nil {
 				runErr = err
@@ -155,6 +181,7 @@ func runProp(spec *PropSpec, tier, mutant string, noMut bool) (code int) {
 		runRound14(c, spec)
 		runRound15(c, spec)
 		runRound16(c, spec)
+		runRound17(c, spec)
 		if c.Whole && spec.Thorough != nil {
 			spec.Thorough(c)
 		}
